@@ -383,6 +383,15 @@ def _option_unwrap_or_default(it, st, args, ctx):
     return ite_val(simp(is_variant(o, 'Some')), o.payloads['Some'][0], d)
 
 
+@summary(r'Result::<.*>::unwrap_or_default(::<.*>)?$')
+def _result_unwrap_or_default(it, st, args, ctx):
+    o = _enum_arg(it, st, args[0])
+    d = default_value(it, ctx.dest_ty)
+    if 'Ok' not in o.payloads:
+        return d
+    return ite_val(simp(is_variant(o, 'Ok')), o.payloads['Ok'][0], d)
+
+
 @summary(r'Option::<.*>::(is_some|is_none)(::<.*>)?$')
 def _option_is(it, st, args, ctx):
     o = _enum_arg(it, st, args[0])
